@@ -8,7 +8,10 @@
    `total_cost st R`.  No minimum over a possibly empty set is formed: two problems are compared through
    the sets { v | some feasible solution has cost v }, which gives equal feasibility and equal optima. *)
 From Coq Require Import ZArith List Bool Lia.
-From VQ Require Import Base LinAlg Vrptw Vrptw_facts Path Path_facts Penalty Penalty_facts Routes Routes_facts.
+From VQ Require Import Base LinAlg Vrptw Vrptw_facts Path Path_facts Penalty Penalty_facts Routes Routes_facts
+                       Routes_views Routes_seq_facts Routes_arc_facts.
+(* the arc and sequence developments are required without Import (inst, node_at, vars, valid_route, ... clash) *)
+From VQ Require Arc Arc_ref Arc_facts Arc_routes Seq Seq_facts.
 Import ListNotations.
 Open Scope Z_scope.
 
@@ -103,6 +106,107 @@ Qed.
 Print Assumptions C08_path_qubo.
 
 (* ====================================================================== *)
+(* 3. arc-based and sequence-based corollaries (C05, C07)                   *)
+(* ====================================================================== *)
+(* Common hypotheses on the VRPTW st:
+     no_depot_loop st    the VRPTW graph has no depot self-arc (the empty trip is not a route),
+     capacity_free st    capacity is not binding: every partial load of every node sequence is in [0, cap].
+   arc_solution I x v := x is a 0-1 list of length num_variables with A x = b and c.x = v (C05's terms);
+   seq_solution I x v := x is a 0-1 vector with A x = b, x'Rx = 0 and c.x + x'Qo x = v (C07's terms). *)
+
+(* 3a. arc-based object on the same graph, grid values pairwise distinct and containing 0 and every
+   service time of every valid route, customer-to-customer travel times positive (C05_sound needs it),
+   depot window opening at 0: the arc-based 0-1 program and the route-partition problem attain the same
+   set of costs.  (x -> R: C05_sound, C05_project, C05_objective; R -> x: C05_complete.) *)
+Theorem C08_arc_equiv : forall (st : pstate) (I : Arc.inst) (v : Z),
+  Arc.ig I = pg st -> Inv (pg st) -> NoDup (Arc.igrid I) -> no_depot_loop st ->
+  nlo (Path.node_at (pg st) 0) = 0 -> Arc_routes.pos_cc I -> capacity_free st ->
+  grid_complete st (Arc.igrid I) ->
+  ((exists x, arc_solution I x v) <-> (exists R, partition st R /\ total_cost st R = v)).
+Proof. exact arc_equiv. Qed.
+Print Assumptions C08_arc_equiv.
+
+(* 3b. non-strict sequence-based object on the VRPTW graph (seq_view: same nodes, same arcs plus the depot
+   self-arc of cost 0, vehicle costs 0) with V >= #customers and L >= #customers + 2 (and L >= 3, C07):
+   every route partition R embeds, one route per vehicle padded with depot stays, as a walk assignment
+   whose objective is total_cost st R ... *)
+Theorem C08_seq_embedding : forall (st : pstate) (I : Seq.inst) (R : list (list nat)),
+  Inv (pg st) -> no_depot_loop st -> seq_view st I ->
+  (1 <= num_nodes st)%nat ->
+  (num_nodes st - 1 <= Seq.iV I)%nat -> (num_nodes st - 1 + 2 <= Seq.iL I)%nat ->
+  partition st R ->
+  Seq.walk_assignment I (Seq.pad_walks (map interior R)) /\
+  seq_cost I (Seq.pad_walks (map interior R)) = total_cost st R.
+Proof. intros st I R HI Hl Hv. exact (seq_embed st I HI Hl Hv R). Qed.
+Print Assumptions C08_seq_embedding.
+
+(* ... hence (C07_iff, C07_objective) every cost attained by a partition is attained by a solution of the
+   non-strict 0-1 program: VRPTW feasible -> non-strict feasible, non-strict optimum <= VRPTW optimum *)
+Theorem C08_seq_nonstrict_le : forall (st : pstate) (I : Seq.inst) (v : Z),
+  Inv (pg st) -> no_depot_loop st -> seq_view st I ->
+  (1 <= num_nodes st)%nat -> (3 <= Seq.iL I)%nat ->
+  (num_nodes st - 1 <= Seq.iV I)%nat -> (num_nodes st - 1 + 2 <= Seq.iL I)%nat ->
+  (exists R, partition st R /\ total_cost st R = v) ->
+  exists x, seq_solution I x v.
+Proof. intros st I v HI Hl Hv. exact (seq_nonstrict_le st I HI Hl Hv v). Qed.
+Print Assumptions C08_seq_nonstrict_le.
+
+(* seq_view is what SequenceBasedRoutingProblem(vrptw, strict=False) builds from the VRPTW graph *)
+Theorem C08_seq_view_of_constructor : forall st g' V L vc,
+  Inv (pg st) -> nodes (pg st) <> [] ->
+  Seq.seq_init false (pg st) = Ok g' -> (forall v, nth v vc 0 = 0) ->
+  seq_view st (Seq.mkInst g' V L vc).
+Proof. exact seq_view_of_constructor. Qed.
+Print Assumptions C08_seq_view_of_constructor.
+
+(* 3c. strict object (seq_view_strict: its arcs other than the depot self-arc are arcs of the VRPTW with the
+   same data; strict_graph / windows_ok: the hypotheses of C07_strict_time), depot window starting at or
+   after 0: every walk assignment projects -- each vehicle's stops up to its first return to the depot --
+   to a route partition of the same cost ... *)
+Theorem C08_seq_projection : forall (st : pstate) (I : Seq.inst) (W : nat -> nat -> nat),
+  no_depot_loop st -> seq_view_strict st I ->
+  Seq_facts.strict_graph (Seq.ig I) -> Seq_facts.windows_ok (Seq.ig I) ->
+  capacity_free st -> 0 <= nlo (Path.node_at (pg st) 0) -> (2 <= Seq.iL I)%nat ->
+  Seq.walk_assignment I W ->
+  partition st (walk_routes I W) /\ total_cost st (walk_routes I W) = seq_cost I W.
+Proof. intros st I W. exact (seq_strict_project st I W). Qed.
+Print Assumptions C08_seq_projection.
+
+(* ... hence every cost attained by a solution of the strict 0-1 program is the cost of a route partition:
+   strict optimum >= VRPTW optimum *)
+Theorem C08_seq_strict_ge : forall (st : pstate) (I : Seq.inst) (v : Z),
+  no_depot_loop st -> seq_view_strict st I ->
+  Seq_facts.strict_graph (Seq.ig I) -> Seq_facts.windows_ok (Seq.ig I) ->
+  capacity_free st -> 0 <= nlo (Path.node_at (pg st) 0) ->
+  (1 <= num_nodes st)%nat -> (3 <= Seq.iL I)%nat ->
+  (exists x, seq_solution I x v) ->
+  exists R, partition st R /\ total_cost st R = v.
+Proof. exact seq_strict_ge. Qed.
+Print Assumptions C08_seq_strict_ge.
+
+(* ... and strict feasibility implies feasibility of the VRPTW (hence, by C08_path_equiv / C08_arc_equiv /
+   C08_seq_nonstrict_le, of the other three programs under their hypotheses) *)
+Theorem C08_strict_feasible_implies_feasible : forall (st : pstate) (I : Seq.inst),
+  no_depot_loop st -> seq_view_strict st I ->
+  Seq_facts.strict_graph (Seq.ig I) -> Seq_facts.windows_ok (Seq.ig I) ->
+  capacity_free st -> 0 <= nlo (Path.node_at (pg st) 0) ->
+  (1 <= num_nodes st)%nat -> (3 <= Seq.iL I)%nat ->
+  (exists x v, seq_solution I x v) -> exists R, partition st R.
+Proof.
+  intros st I Hl Hv Hsg Hw Hc Hd Hn HL (x & v & Hx).
+  destruct (seq_strict_ge st I v Hl Hv Hsg Hw Hc Hd Hn HL (ex_intro _ x Hx)) as (R & HR & _).
+  exists R; exact HR.
+Qed.
+Print Assumptions C08_strict_feasible_implies_feasible.
+
+(* capacity_free holds e.g. when all demands are 0 and 0 <= initial loading <= capacity (the instances of
+   the runtime check) *)
+Theorem C08_capacity_free_zero_demands : forall st,
+  (forall j, ndemand (Path.node_at (pg st) j) = 0) -> 0 <= pinit st <= pcap st -> capacity_free st.
+Proof. exact capacity_free_zero_demands. Qed.
+Print Assumptions C08_capacity_free_zero_demands.
+
+(* ====================================================================== *)
 (* 4. examples (non-vacuity)                                               *)
 (* ====================================================================== *)
 (* depot D=10 (0,inf); A=11 window (1,4); B=12 window (2,6); demands 0, capacity 5, initial loading 0.
@@ -113,9 +217,10 @@ Definition ex_build : list pop :=
   [PAddNode 10 0 0 PInf; PAddNode 11 0 1 (Fin 4); PAddNode 12 0 2 (Fin 6);
    PAddArc 10 11 1 2; PAddArc 11 10 1 3; PAddArc 10 12 3 1; PAddArc 12 10 2 6;
    PAddArc 11 12 1 1; PAddArc 12 11 2 2].
-Definition ex_st0 : pstate := prun ex_build (pempty 5 0).
-Definition ex_ops : list pop := ex_build ++ add_all_candidates (num_nodes ex_st0).
-Definition ex_st : pstate := prun ex_ops (pempty 5 0).
+(* (notations, so that the instances of the theorems above are syntactically about ex_st) *)
+Notation ex_st0 := (prun ex_build (pempty 5 0)).
+Notation ex_ops := (ex_build ++ add_all_candidates (num_nodes ex_st0)).
+Notation ex_st := (prun ex_ops (pempty 5 0)).
 
 Example C08_example_hypotheses :
   (0 < num_nodes ex_st)%nat /\ stored_current ex_st /\ pool_complete ex_st /\
@@ -176,9 +281,8 @@ Example C08_example_qubo :
 Proof.
   destruct C08_example_hypotheses as (Hn & Hc & Hp & Er & Ec & _).
   destruct C08_example_optimum as (Hp2 & _ & Hopt & Hcost).
-  pose proof (C08_path_qubo 5 0 ex_ops) as Hq. cbv zeta in Hq.
-  change (prun ex_ops (pempty 5 0)) with ex_st in Hq.
-  destruct (Hq Hn Hc Hp (ex_intro _ _ Hp2)) as (s & Es & Hmin & Hval). clear Hq.
+  destruct (C08_path_qubo 5 0 ex_ops Hn Hc Hp (ex_intro _ _ Hp2)) as (s & Es & Hmin & Hval).
+  cbv zeta in Hmin, Hval.
   assert (ES : S_path (pcosts ex_st) = 21) by (vm_compute; reflexivity). rewrite ES in Hmin, Hval.
   exists s. split; [exact Es|]. split; [exact ES|].
   assert (Hx : sys_qubo_min s 21 (Zvec_of [0; 1; 0])).
@@ -205,4 +309,111 @@ Proof.
   cbv zeta. split; [vm_compute; reflexivity|]. split; [vm_compute; reflexivity|].
   intros H. destruct (H 0%nat [0; 1; 0]%nat) as [_ Hc]; [vm_compute; reflexivity|].
   vm_compute in Hc. discriminate.
+Qed.
+
+(* ---------- the same VRPTW seen by the arc-based and the sequence-based objects ---------- *)
+Example C08_example_common_hypotheses :
+  Inv (pg ex_st) /\ no_depot_loop ex_st /\ capacity_free ex_st /\
+  nlo (Path.node_at (pg ex_st) 0) = 0 /\ num_nodes ex_st = 3%nat.
+Proof.
+  split; [apply (pi_graph _ (proj1 (prun_stored ex_ops (pempty 5 0) (PInv_empty 5 0))))|].
+  split; [vm_compute; reflexivity|]. split; [|split; vm_compute; reflexivity].
+  apply C08_capacity_free_zero_demands; [|vm_compute; split; discriminate].
+  intros j. destruct j as [|[|[|[|j]]]]; vm_compute; reflexivity.
+Qed.
+
+(* arc-based object on the grid 0..5, which holds the service times 1,2 / 1,2,4 / 3,5 of the three valid
+   routes: its 0-1 program attains the optimum 9 and nothing below *)
+Definition ex_arc : Arc.inst := Arc.mkInst (pg ex_st) [0; 1; 2; 3; 4; 5].
+
+Example C08_example_arc :
+  NoDup (Arc.igrid ex_arc) /\ Arc_routes.pos_cc ex_arc /\ grid_complete ex_st (Arc.igrid ex_arc) /\
+  (exists x, arc_solution ex_arc x 9) /\ (forall x v, arc_solution ex_arc x v -> 9 <= v).
+Proof.
+  destruct C08_example_common_hypotheses as (HI & Hl & Hc & Hd & _).
+  destruct C08_example_hypotheses as (_ & _ & Hp & Er & _ & _).
+  destruct C08_example_optimum as (_ & _ & Hopt & Hcost).
+  assert (Hnd : NoDup (Arc.igrid ex_arc)).
+  { cbn [Arc.igrid ex_arc]. repeat (constructor; [simpl; intuition discriminate|]). constructor. }
+  assert (Hpos : Arc_routes.pos_cc ex_arc).
+  { intros i j a H Hi Hj. cbn [Arc.ig ex_arc] in H.
+    destruct i as [|[|[|i]]]; [lia| | |]; (destruct j as [|[|[|j]]]; [lia| | |]);
+      vm_compute in H; try discriminate; inversion H; subst; simpl; lia. }
+  assert (Hgc : grid_complete ex_st (Arc.igrid ex_arc)).
+  { split; [simpl; auto|]. intros r Hv. apply Hp in Hv. rewrite Er in Hv.
+    destruct Hv as [<-|[<-|[<-|[]]]]; vm_compute; repeat (apply Forall_cons; [auto 10|]); apply Forall_nil. }
+  split; [exact Hnd|]. split; [exact Hpos|]. split; [exact Hgc|].
+  pose proof (fun v => C08_arc_equiv ex_st ex_arc v eq_refl HI Hnd Hl Hd Hpos Hc Hgc) as Heq.
+  split.
+  - apply Heq. exists [[0; 1; 2; 0]]%nat. split; [apply Hopt|exact Hcost].
+  - intros x v Hx. destruct (proj1 (Heq v) (ex_intro _ x Hx)) as (R & HR & <-).
+    rewrite <- Hcost. apply Hopt; exact HR.
+Qed.
+
+(* non-strict sequence-based object as the constructor builds it, 2 vehicles, 4 positions, no vehicle
+   costs: its 0-1 program attains 9 (the embedding of {D-A-B-D}) *)
+Definition ex_seq_graph : graph :=
+  match Seq.seq_init false (pg ex_st) with Ok g => g | Err _ => empty_graph end.
+Definition ex_seq : Seq.inst := Seq.mkInst ex_seq_graph 2 4 [0; 0].
+
+Example C08_example_seq_nonstrict :
+  Seq.seq_init false (pg ex_st) = Ok ex_seq_graph /\ seq_view ex_st ex_seq /\
+  exists x, seq_solution ex_seq x 9.
+Proof.
+  destruct C08_example_common_hypotheses as (HI & Hl & _ & _ & Hn).
+  destruct C08_example_optimum as (_ & _ & Hopt & Hcost).
+  assert (Hinit : Seq.seq_init false (pg ex_st) = Ok ex_seq_graph) by (vm_compute; reflexivity).
+  assert (Hview : seq_view ex_st ex_seq).
+  { apply C08_seq_view_of_constructor; [exact HI | vm_compute; discriminate | exact Hinit |].
+    intros v. destruct v as [|[|[|v]]]; reflexivity. }
+  split; [exact Hinit|]. split; [exact Hview|].
+  apply (C08_seq_nonstrict_le ex_st ex_seq 9 HI Hl Hview); try (rewrite Hn; simpl; lia); [simpl; lia|].
+  exists [[0; 1; 2; 0]]%nat. split; [apply Hopt|exact Hcost].
+Qed.
+
+(* strict object as the strict constructor builds it: its arcs are arcs of the VRPTW, the hypotheses of
+   C07_strict_time hold, every solution of its 0-1 program costs at least the VRPTW optimum 9 *)
+Definition ex_sseq_graph : graph :=
+  match Seq.seq_init true (pg ex_st) with Ok g => g | Err _ => empty_graph end.
+Definition ex_sseq : Seq.inst := Seq.mkInst ex_sseq_graph 2 4 [0; 0].
+
+Example C08_example_seq_strict :
+  Seq.seq_init true (pg ex_st) = Ok ex_sseq_graph /\ seq_view_strict ex_st ex_sseq /\
+  Seq_facts.strict_graph (Seq.ig ex_sseq) /\ Seq_facts.windows_ok (Seq.ig ex_sseq) /\
+  Seq.walk_assignment ex_sseq (Seq.pad_walks [[1; 2]%nat]) /\
+  (exists x, seq_solution ex_sseq x 9) /\ (forall x v, seq_solution ex_sseq x v -> 9 <= v).
+Proof.
+  destruct C08_example_common_hypotheses as (HI & Hl & Hc & Hd & Hn).
+  destruct C08_example_optimum as (_ & _ & Hopt & Hcost).
+  assert (Hview : seq_view_strict ex_st ex_sseq).
+  { apply seq_view_strict_check; try (vm_compute; reflexivity).
+    intros v. destruct v as [|[|[|v]]]; reflexivity. }
+  assert (Hsg : Seq_facts.strict_graph (Seq.ig ex_sseq))
+    by (apply Seq_facts.strict_graphb_true; vm_compute; reflexivity).
+  assert (Hw : Seq_facts.windows_ok (Seq.ig ex_sseq))
+    by (apply Seq_facts.windows_okb_true; vm_compute; reflexivity).
+  assert (Hd0 : 0 <= nlo (Path.node_at (pg ex_st) 0)) by (rewrite Hd; lia).
+  assert (Hok : Seq_facts.seq_ok ex_sseq).
+  { destruct Hview as (Hnodes & Hkeys & H00 & _). apply (view_seq_ok ex_st ex_sseq Hnodes Hkeys H00). rewrite Hn; lia. }
+  assert (HW : Seq.walk_assignment ex_sseq (Seq.pad_walks [[1; 2]%nat])).
+  { apply Seq_facts.pad_walks_assignment; [exact Hok | vm_compute; lia | vm_compute; lia | |].
+    - constructor; [|constructor]. split; [|split].
+      + intros c [<-|[<-|[]]]; vm_compute; lia.
+      + vm_compute. repeat split; auto 10.
+      + vm_compute; lia.
+    - intros n H1 H2. change (Seq.iN ex_sseq) with (length (nodes ex_sseq_graph)) in H2.
+      assert (E : length (nodes ex_sseq_graph) = 3%nat) by (vm_compute; reflexivity). rewrite E in H2.
+      destruct n as [|[|[|n]]]; try lia; vm_compute; reflexivity. }
+  split; [vm_compute; reflexivity|]. split; [exact Hview|]. split; [exact Hsg|]. split; [exact Hw|].
+  split; [exact HW|].
+  assert (Hge : forall x v, seq_solution ex_sseq x v -> 9 <= v).
+  { intros x v Hx.
+    destruct (C08_seq_strict_ge ex_st ex_sseq v Hl Hview Hsg Hw Hc Hd0) as (R & HR & <-);
+      [rewrite Hn; lia | simpl; lia | exists x; exact Hx |].
+    rewrite <- Hcost. apply Hopt; exact HR. }
+  split; [|exact Hge].
+  destruct Hview as (Hnodes & Hkeys & H00 & Harcs & Hvc).
+  exists (Seq.indicator_free ex_sseq (Seq.pad_walks [[1; 2]%nat])).
+  replace 9 with (seq_cost ex_sseq (Seq.pad_walks [[1; 2]%nat])) by (vm_compute; reflexivity).
+  apply (walk_solution ex_st ex_sseq Hnodes Hkeys H00); [rewrite Hn; lia | simpl; lia | exact HW].
 Qed.
